@@ -399,7 +399,7 @@ INFO['C03'] = {
 INFO['C09'] = {
     'bounds': 'algebra::affine N=1..4, float and double, REAL mode (all real matrices/vectors): A*x == Ax+t; (A*B)*v == A*(B*v); '
               'product matrix == (A_r B_r | A_r t_B + t_A); left-nested products of up to 4 transforms (N<=3) / 3 transforms (N=4); '
-              'translation/scaling/identity exact constants (BITS, all bit patterns); layer affine<probe<N,M>> queries the probe once '
+              'translation/scaling/identity exact constants (BITS, all bit patterns), also for mixed-type argument packs (int32,uint32) and (int32,float,uint32) with every entry equal to the own conversion of its argument (unit compiled with -Wno-c++11-narrowing, which makes clang accept what g++ accepts); layer affine<probe<N,M>> queries the probe once '
               'at Ax+t and returns its value, configuration reads back',
     'outside': 'rounding (reported as op count: N multiplies and N adds per component); products of more than 4 transforms',
     'cuts': 'REAL mode (exact reading)', 'assumptions': ['exactness over small integers follows from the identity plus exactness of IEEE arithmetic on small integers (stated)'],
@@ -774,12 +774,12 @@ INFO['C12'] = {
     'bounds': 'field types strided<size2,array<float1>>, morton<size2,array<float1>,portable>, affine<linear<strided<...>>>; '
               'inductive step: pre-state = 2 slots (quick) / 3 slots for the ownership operations (thorough), each empty / live / moved-from, live fields built '
               'through the API with extents in {1,2}^2 (storage <= 4 cells) and symbolic contents; ONE operation with symbolic slot '
-              'arguments (aliasing allowed): copy-construct, move-construct, copy-assign (incl. self), move-assign, write through a '
+              'arguments (aliasing allowed): copy-construct and copy-assign from a live OR a moved-from source (the copy of a moved-from slot has unspecified value, owns what it holds, and every cell it records is initialised: a branch on each cell, UNINIT-DECISION otherwise), move-construct, copy-assign (incl. self), move-assign, write through a '
               'view, destroy, converting copy through the other layout, converting MOVE through the other layout (source left moved-from), dump/load; post: every live slot equals its plain-array model at '
               'every coordinate, live buffers pairwise distinct, live heap objects == live slots, teardown frees everything; engine VCs: '
               'no double free, no use after free, no mismatched delete. Bounded histories from empty slots with symbolic operation '
               'choice: length 2 (quick) / 3 (thorough)',
-    'outside': 'storage above 4 cells, more than 3 slots; histories longer than the bound are covered by the inductive step (stated)',
+    'outside': 'storage above 4 cells, more than 3 slots; histories longer than the bound are covered by the inductive step (stated); the VALUE of a moved-from slot and of a copy of one is unspecified (only ownership, no leak, and initialised storage of the copy are demanded)',
     'cuts': 'none',
     'assumptions': ['the pre-state generator reaches every state the API can build within the size bound, so one step covers histories of any length (induction, stated)',
                     'moved-from slots only admit destroy and assign-to'],
@@ -925,7 +925,7 @@ INFO['C20'] = {
               'not an alphabet); rewrite rules re-extracted from clang\'s AST of static_permutation.hpp on every run; the witness of '
               'every proved obligation and every counterexample is instantiated by g++ (static_assert)',
     'outside': 'longer sequences; header shapes the rule extractor does not recognise make the check inconclusive (exit 2)',
-    'cuts': 'own evaluator of the template metaprogram (structural matching of partial specialisations, conditional_t forks, is_same)',
+    'cuts': 'own evaluator of the template metaprogram (structural matching of partial specialisations, conditional_t forks, is_same, member aliases, static constexpr data members, constexpr functions, std::min/std::max, folds, variable templates)',
     'assumptions': ['most-specialised-match selection as implemented in engine/tmpl.py (sufficient for this header; differential g++ instantiation of witnesses)'],
 }
 
